@@ -7,7 +7,10 @@ from debian_inspector import debcon
 ID = 'C08'
 LEVEL = 'proof'
 THEOREMS = [('DebInspector.Thm.C08', ['Props.C08.mergeItems_keys', 'Props.C08.mergeItems_lookup', 'Props.C08.mergeStep_keys']),
-            ('DebInspector.Thm.C08M', ['Props.C08M.soundM', 'Props.C08M.getParagraphData_items'])]
+            ('DebInspector.Thm.C08M', ['Props.C08M.soundM', 'Props.C08M.getParagraphData_items']),
+            ('DebInspector.Thm.C08W', ['Props.C08W.sound', 'Props.C08W.paragraph_words', 'Props.C08W.paragraphs_words', 'Props.C08W.phl_atoms',
+                                       'Props.C08W.hsp_atoms', 'Props.C08W.items_sub', 'Props.C08W.splitKeepEnds_TE', 'Props.C08W.sep_line_atoms',
+                                       'Props.C08W.splitParagraphsAux_atoms'])]
 TRUSTED = [
     'Lean 4.33.0 kernel',
     'reading of the property as Props.C08.holdsOn (word inclusion) and holdsOnM (merge of repeated names)',
@@ -18,10 +21,17 @@ TRUSTED = [
 ASSUMPTIONS = ['texts are str objects without lone surrogates; words are lower-cased runs of non-white-space, non-colon characters']
 RULE = ('line vocabulary with repeats (a: 1, a: 2, A: 3, b:, continuations, From me at first/middle/last position, colon-first lines, blank-then-body, CRLF/CR, FF, U+0085, U+2028); '
         'the pairs family exhaustively for <= 4 pairs over 2 names x 2 casings x 3 values. non-trivial = the text has a colon')
-TECHNIQUE = ('Lean 4 theorems for the merge clause, on items and on the rendered text (soundM: keys in order of first occurrence; each key maps to its distinct values in order of first appearance, any number and pattern of repeats) + executable word-inclusion and merge specification evaluated on every implementation observation + correspondence with a hand model of the stdlib header parser')
-LEVEL_TEXT = ('The two clauses (every word of the text appears in a key or a value; repeated names merge under the first occurrence keeping distinct values in order) are decided by the '
-              'executable specification on every implementation observation and by correspondence with the hand model of HeaderParser + get_paragraph_data over adversarial line '
-              'vocabularies and the exhaustive pairs family. Proved in Lean 4 for the merging loop of get_paragraph_data, for any list of (name, value) items: the keys are the lower-cased trimmed names in order of first occurrence (mergeItems_keys) and every key maps to the newline-join of the distinct trimmed values spelled for it in order of first appearance, whatever the pattern of repeated names and values, single-line or multi-line (mergeItems_lookup: no hypothesis on the values since fix F14; before it the theorem needed single-line values, and the excluded point was a defect of the code). Props.C08M.soundM: for every paragraph of Name: value fields whose values have any number of continuation lines (names a letter then letters, digits, hyphens; first line and continuation lines without line boundaries, value spelled trimmed) with any pattern of repeated names and values, the model of get_paragraph_data on the rendered text returns exactly the expected mapping: the header parser delivers exactly the items of the text (getParagraphData_items, any names) and the merge gives each lower-cased name once, in order of first occurrence, with its distinct values in order. The word-inclusion clause over arbitrary texts is not a theorem.')
+TECHNIQUE = ('Lean 4 theorems for both clauses: Props.C08W.sound (word inclusion, for every text, through the model of the stdlib header parser, the merging loop and the paragraph splitter) and '
+             'Props.C08M.soundM (the merge clause on the rendered text) + executable specification evaluated on every implementation observation + correspondence with the hand model of the stdlib header parser')
+LEVEL_TEXT = ('Props.C08W.sound: for every text, every word of the text (lower-cased maximal run of characters that are neither white space nor a colon) appears in a key or a value of get_paragraph_data(text), and of '
+              'one of the mappings of get_paragraphs_data(text). Steps: splitKeepEnds_TE / atoms_flatten (the words of a text are the words of its lines: every line but the last ends with a terminator), '
+              'phl_atoms (the header loop of the model of the stdlib parser: when it reports no defect, the unix-from line, the headers and the pushed-back line hold every word of the lines it was given), '
+              'hsp_atoms (one header: name and value hold every word of its source lines, through the trimming of header_source_parse), sep_line_atoms (the separator line that is thrown away has no words), '
+              'items_sub (the merging loop keeps every name and every distinct non-empty value: mergeItems_lookup), splitParagraphsAux_atoms (the paragraph splitter removes only line breaks and blank lines); '
+              'when the parser reports a defect or finds no header the whole text is kept under "unknown". '
+              'Props.C08M.soundM: for every paragraph of Name: value fields whose values have any number of continuation lines, with any pattern of repeated names and values, the model of get_paragraph_data on the rendered text returns '
+              'each lower-cased name once, in order of first occurrence, with its distinct values (whole, multi-line values included) in order of first appearance (mergeItems_keys, mergeItems_lookup: no hypothesis on the values since fix F14). '
+              'The stdlib parser itself is modelled, not verified: the model is tied to CPython by its own correspondence stream.')
 LEVEL_NOTE = ('Trusted: Lean kernel; axioms propext, Classical.choice, Quot.sound only; the stdlib email parser is modelled and tied by correspondence, not verified.')
 
 VOCAB = ['a: 1', 'a: 2', 'A: 3', 'a: 1', 'b:', 'b: x y', ' cont', '\tcont2', ' .', 'From me', 'From: you', ':x', ': ', 'junk line', '', ' ', 'Homepage: http://x:80/y',
